@@ -293,6 +293,30 @@ void partitionOps(NifFile& nif, const std::string& shapeName, const std::string&
 			partitionEvent(nif, shape, "DeletePartitions+Update", caseJson, out);
 		}
 	}
+	// a reassignment that is saved without a rebuild (the writer regenerates what it needs), and one that is cleaned up
+	// before the rebuild
+	for (int way = 0; way < 2; way++) {
+		NifFile copy(nif);
+		auto cs = byName(copy, shapeName);
+		if (!cs) break;
+		NiVector<BSDismemberSkinInstance::PartitionInfo> pi6;
+		std::vector<int> tp6;
+		if (!copy.GetShapePartitions(cs, pi6, tp6) || pi6.size() < 2 || std::find(tp6.begin(), tp6.end(), -1) != tp6.end()) break;
+		// every third triangle moves to the next partition
+		for (size_t i = 0; i < tp6.size(); i += 3) tp6[i] = (tp6[i] + 1) % int(pi6.size());
+		copy.SetShapePartitions(cs, pi6, tp6);
+		if (way == 0) {
+			if (copy.GetHeader().GetVersion().IsSSE() && !dynamic_cast<BSTriShape*>(cs)) continue; // (mixed layouts, see below)
+			NifFile re;
+			if (loadFromString(re, saveToString(copy, false, false)) != 0) continue;
+			if (auto rs = byName(re, shapeName)) partitionEvent(re, rs, "SetShapePartitions+SaveReload(no rebuild)", caseJson, out);
+		}
+		else {
+			copy.RemoveEmptyPartitions(cs);
+			copy.UpdateSkinPartitions(cs);
+			partitionEvent(copy, cs, "SetShapePartitions+RemoveEmptyPartitions+Update", caseJson, out);
+		}
+	}
 	// deleting the first partition (the remaining ones move down): its triangles go to the second one first
 	{
 		NifFile copy(nif);
